@@ -87,6 +87,24 @@ def generate(rng, tier):
                 "fresh": False}
     if fn == "louvain" and rng.random() < 0.5:
         n = rng.randrange(6, 13)  # local-move cycles need a little room (the tie cycle of 10.3 was found at n = 10)
+    if fn == "pagerank" and rng.random() < 0.12:
+        # funnels: m equally long chains that all end in one hub which links back to every chain head.  A perturbation travels
+        # down the chains in lock step (every single score changes by less than tol) and arrives at the hub all at once
+        m, ln = rng.randrange(8, 41), rng.randrange(1, 5)
+        n = m * ln + 1
+        adj = [[] for _ in range(n)]
+        for i in range(m):
+            for j in range(ln):
+                adj[i * ln + j].append(i * ln + j + 1 if j + 1 < ln else n - 1)
+            adj[n - 1].append(i * ln)
+        for _ in range(rng.choice([0, 0, 1, 3])):
+            adj[rng.randrange(n)].append(rng.randrange(n))
+        labels = rng.sample(range(0, 5000), n)
+        order = list(range(n))
+        if rng.random() < 0.5:
+            rng.shuffle(order)
+        return {"fn": fn, "n": n, "adj": adj, "labels": labels, "order": order, "fresh": False,
+                "kw": {"damping": rng.choice([0.5, 0.85, 0.99]), "tol": rng.choice([2e-2, 1e-3, 1e-4, 1e-6]), "max_iter": rng.choice([100, 5000])}}
     if fn == "pagerank" and rng.random() < 0.35:
         # larger, skewed graphs (hubs and spokes): the stopping rule is only stressed when many small changes add up
         n = rng.randrange(12, 70)
@@ -403,19 +421,21 @@ def execute(case) -> Outcome:
         if n:
             if set(sol) != set(L) or any(s < 0 for s in sol.values()) or abs(sum(sol.values()) - 1.0) > 1e-9:
                 o.violate(PROP, "not_a_distribution", f"scores {sol} (sum {sum(sol.values())!r})", **key)
-            elif res.status.name == "OPTIMAL" and residual_ratio(case, [sol[L[i]] for i in range(n)]) > 10.0:
-                # "to within the tolerance": the shipped rule (largest change < tol) leaves a residual of the damped equation of at
-                # most ~2.5 tol on 40 000 random graphs up to 40 nodes; ten times the tolerance is not "within the tolerance"
+            elif res.status.name == "OPTIMAL" and residual_ratio(case, [sol[L[i]] for i in range(n)]) > 1.0 + 1e-13 / max(case["kw"].get("tol", 1e-6), 1e-300):
+                # "to within the tolerance", literally: the residual of one sweep of the damped equation is at most tol.  The
+                # iteration contracts in the L1 norm, so a run that stops on a total change below tol leaves a residual below
+                # damping * tol.  (Until the repair of the stopping rule - largest single change - this rule was 10 x tol; funnel
+                # graphs showed residuals of 15-1600 x tol with OPTIMAL.)
                 o.violate(PROP, "equation_not_satisfied", f"OPTIMAL but the residual of the damped equation is "
-                          f"{residual_ratio(case, [sol[L[i]] for i in range(n)]):.1f} x tol", **key)
+                          f"{residual_ratio(case, [sol[L[i]] for i in range(n)]):.2f} x tol", **key)
             elif res.status.name == "OPTIMAL" and n <= 10:
                 exact = ref_pagerank(case)
                 d, tol = case["kw"]["damping"], case["kw"]["tol"]
-                bound = n * tol * d / (1 - d) + 1e-12
+                bound = tol * d / (1 - d) + 1e-12
                 worst = max(abs(sol[L[i]] - float(exact[i])) for i in range(n))
                 if worst > bound:
                     o.violate(PROP, "equation_not_satisfied", f"OPTIMAL but a score is {worst!r} away from the solution of the damped equation "
-                              f"(bound n*tol*d/(1-d) = {bound!r})", **key)
+                              f"(bound tol*d/(1-d) = {bound!r})", **key)
         o.trace.append([res.status.name, [repr(sol[L[i]]) for i in range(n)] if n and set(sol) == set(L) else None])
     else:  # louvain
         parts = [set(p) for p in sol]
